@@ -22,6 +22,10 @@ from deep.api.attributes import BoundedAttributes
 from deep.api.resource import Resource
 from deep.utils import time_ns
 
+# snapshot ids come from a generator of our own: drawing them from the module level functions of random would
+# advance (and so change) the sequence an application that seeded the global generator gets back
+_ID_GENERATOR = random.Random()
+
 
 class EventSnapshot:
     """This is the model for the snapshot that is uploaded to the services."""
@@ -36,7 +40,7 @@ class EventSnapshot:
         :param frames: the captured frames
         :param var_lookup: the captured variables.
         """
-        self._id = random.getrandbits(128)
+        self._id = _ID_GENERATOR.getrandbits(128)
         self._tracepoint = tracepoint
         self._var_lookup: Dict[str, 'Variable'] = var_lookup
         self._ts_nanos = ts
